@@ -15,7 +15,7 @@ SCOPE = ("suspend_point<void>/<X> add/pop/merge/move/swap/clear/await/destructor
 ASSUMPTIONS = ["the awaiting coroutine's own handle (co_await self()) is in at most one place and is consumed only by co_await "
                "(pop/clear/destroy of the object holding it would resume a running coroutine: rejected as invalid input)",
                "coroutine-mode cases keep < 60 enqueues so that libstdc++ deque node allocation (C20 finding) stays outside C06's allocation accounting",
-               "own-handle-LAST awaits: the model transcribes the library with fixes/C06-await-own-handle-last.patch (/repo 857b709); the unrepaired "
+               "own-handle-LAST awaits: the model transcribes the library with fixes/C06-await-own-handle-last.patch (/repo 59ae9af); the unrepaired "
                "code resumes the awaiter twice (use-after-free) on exactly these inputs (signature suffix :self-last)"]
 
 NSLOT = 6
